@@ -97,6 +97,7 @@ type Exec struct {
 	atExit        Value
 	schedState    *sched
 	floatCalls    []floatCall
+	tokens        map[int]tokenInfo
 	model         *Model // a model of the current path condition, or nil
 	cacheHits     int
 	observes      []observation
@@ -590,6 +591,7 @@ func (x *Exec) runPath(fn *ssa.Function) {
 	x.threads = nil
 	x.schedState = nil
 	x.floatCalls = nil
+	x.tokens = map[int]tokenInfo{}
 	x.observes = nil
 	x.mutexes = map[*Value]*mutexState{}
 	x.conds = map[*Value]*condState{}
